@@ -349,6 +349,28 @@ type replayResp struct {
 }
 
 func nativeRun(pkgDir, property string, reqs []replayReq) (map[string]replayResp, string, error) {
+	return nativeRunOpt(pkgDir, property, reqs, false)
+}
+
+// raceConfirmed: a lock-discipline violation found symbolically is confirmed by the Go race detector: the same harness
+// and inputs, built with -race, the two "concurrent" calls really running in two goroutines (ndConcurrently under
+// VERIF_RACE); confirmed iff a DATA RACE is reported with a frame in the repository's own (non-harness) code.
+func raceConfirmed(pkgDir, property string, req replayReq) bool {
+	req.Repeat = 1
+	_, out, _ := nativeRunOpt(pkgDir, property, []replayReq{req}, true)
+	if !strings.Contains(out, "DATA RACE") {
+		return false
+	}
+	for _, l := range strings.Split(out, "\n") {
+		l = strings.TrimSpace(l)
+		if strings.HasPrefix(l, repoDir+"/") && strings.Contains(l, ".go:") && !strings.Contains(l, "zz_verif") && !strings.Contains(l, "_test.go") {
+			return true
+		}
+	}
+	return false
+}
+
+func nativeRunOpt(pkgDir, property string, reqs []replayReq, race bool) (map[string]replayResp, string, error) {
 	ov, _, _, err := harnessFiles(pkgDir, property, true)
 	if err != nil {
 		return nil, "", err
@@ -374,9 +396,16 @@ func nativeRun(pkgDir, property string, reqs []replayReq) (map[string]replayResp
 	inPath, outPath := filepath.Join(tmp, "in.json"), filepath.Join(tmp, "out.json")
 	rb, _ := json.Marshal(reqs)
 	os.WriteFile(inPath, rb, 0o644)
-	cmd := exec.Command("go", "test", "-vet=off", "-count=1", "-timeout", "20m", "-overlay", ovPath, "-run", "^TestVerifReplay$", "./"+pkgDir)
+	args := []string{"test", "-vet=off", "-count=1", "-timeout", "20m", "-overlay", ovPath, "-run", "^TestVerifReplay$", "./" + pkgDir}
+	if race {
+		args = append([]string{"test", "-race"}, args[1:]...)
+	}
+	cmd := exec.Command("go", args...)
 	cmd.Dir = repoDir
 	cmd.Env = append(append(os.Environ(), goEnv...), "VERIF_REPLAY_IN="+inPath, "VERIF_REPLAY_OUT="+outPath)
+	if race {
+		cmd.Env = append(cmd.Env, "VERIF_RACE=1", "CGO_ENABLED=1")
+	}
 	out, runErr := cmd.CombinedOutput()
 	ob, err := os.ReadFile(outPath)
 	if err != nil {
@@ -581,7 +610,7 @@ func cmdCheck(args []string) int {
 					}
 					for j, v := range r.Violations {
 						rr := resp[fmt.Sprintf("v/%d/%d", i, j)]
-						if violationReproduced(v, rr.Runs) {
+						if violationReproduced(v, rr.Runs) || (v.Kind == "race" && raceConfirmed(pkg, prop, replayReq{ID: "race", Harness: r.Ob.Harness, Model: v.Model, Picks: v.Picks, Atoms: v.Atoms, Tier: tier})) {
 							if v.Finding != "" && known[v.Finding] {
 								r.KnownHits = append(r.KnownHits, v)
 							} else {
